@@ -77,6 +77,82 @@ def find_function(qual):
     return node, mod, cls, h, (node.lineno, node.end_lineno)
 
 
+def _module_assign(mod, name):
+    tree, _, _ = module_ast(mod)
+    val = None
+    for n in tree.body:
+        if isinstance(n, ast.AnnAssign) and isinstance(n.target, ast.Name) and n.target.id == name and n.value is not None:
+            val = n.value
+        elif isinstance(n, ast.Assign) and len(n.targets) == 1 and isinstance(n.targets[0], ast.Name) and n.targets[0].id == name:
+            val = n.value
+    if val is None:
+        raise Unsupported(f'module constant {mod}.{name}')
+    return val
+
+
+def _module_imports(mod):
+    tree, _, _ = module_ast(mod)
+    out = {}
+    for n in tree.body:
+        if isinstance(n, ast.Import):
+            for a in n.names:
+                out[a.asname or a.name] = a.name
+    return out
+
+
+def module_constant(mod, name, depth=0):
+    """value of a module-level constant table, computed from the source text (nothing is imported): literals, displays
+    with `*` unpacking, dict(k=...), names of the same module, `pkg.mod.NAME`, and `_literals_of(<Literal alias>)`."""
+    if depth > 6:
+        raise Unsupported(f'module constant {mod}.{name}: too deep')
+
+    def ev(e):
+        if isinstance(e, ast.Constant):
+            return e.value
+        if isinstance(e, (ast.Set, ast.Tuple, ast.List)):
+            items = []
+            for x in e.elts:
+                if isinstance(x, ast.Starred):
+                    items.extend(sorted(ev(x.value)))
+                else:
+                    items.append(ev(x))
+            return frozenset(items) if isinstance(e, ast.Set) else tuple(items)
+        if isinstance(e, ast.Dict) and all(k is not None for k in e.keys):
+            return {ev(k): ev(v) for k, v in zip(e.keys, e.values)}
+        if isinstance(e, ast.Call) and isinstance(e.func, ast.Name) and e.func.id == 'dict' and not e.args:
+            return {k.arg: ev(k.value) for k in e.keywords}
+        if isinstance(e, ast.Call) and isinstance(e.func, ast.Name) and e.func.id == '_literals_of' and len(e.args) == 1 \
+                and isinstance(e.args[0], ast.Name):
+            return frozenset(literal_alias(mod, e.args[0].id))
+        if isinstance(e, ast.Name):
+            return module_constant(mod, e.id, depth + 1)
+        if isinstance(e, ast.Attribute):
+            dotted = ast.unparse(e.value)
+            imports = _module_imports(mod)
+            target = imports.get(dotted, dotted if dotted.startswith('dd.') else None)
+            if target is None:
+                raise Unsupported(f'module constant: {ast.unparse(e)}')
+            return module_constant(target, e.attr, depth + 1)
+        raise Unsupported(f'module constant: {ast.unparse(e)[:60]}')
+    return ev(_module_assign(mod, name))
+
+
+def literal_alias(mod, name):
+    """the string literals of `name: TypeAlias = Literal[...]` (aliases of aliases followed)"""
+    v = _module_assign(mod, name)
+    if not (isinstance(v, ast.Subscript) and ast.unparse(v.value).endswith('Literal')):
+        raise Unsupported(f'{mod}.{name} is not a Literal alias')
+    out = []
+    for x in (v.slice.elts if isinstance(v.slice, ast.Tuple) else [v.slice]):
+        if isinstance(x, ast.Constant) and isinstance(x.value, str):
+            out.append(x.value)
+        elif isinstance(x, ast.Name):
+            out.extend(literal_alias(mod, x.id))
+        else:
+            raise Unsupported(f'{mod}.{name}: {ast.unparse(x)}')
+    return out
+
+
 def load_opsets():
     """operator symbol sets, read from dd/_abc.py with ast (never imported)"""
     tree, src, _ = module_ast('dd._abc')
@@ -229,6 +305,7 @@ def generate(target, registry):
     ex = Exec(ckey + (f"[{target['variant']}]" if target.get('variant') else ''), fn, c, registry, mod, cls,
               consts=target.get('consts'))
     ex.finder = find_function
+    ex.const_finder = module_constant
     env, mgrs = {}, {}
     ABDD.clear()
     del HANDLES[:]
@@ -292,6 +369,13 @@ def generate(target, registry):
         S1 = p.mgrs[mkey] if mkey else None
         muts = {nm: (entry_env[nm], p.env.get(nm, entry_env[nm])) for nm in c.mutates}
         if p.status == 'return' and p.exc is None or p.status == 'return':
+            if getattr(c, 'ghost', None) and S1 is not None:
+                # ghost statement executed at normal return: assigns ghost fields only (the contract says which)
+                S1 = S1.copy()
+                for fld, val in c.ghost(Ctx(S=S1, S0=S0, a=ctx0.a)).items():
+                    assert fld in ('ext',), fld
+                    setattr(S1, fld, val)
+                p.mgrs[mkey] = S1
             rz = ret_z(c, p.value, ex, p)
             pctx = Ctx(S=S1, S0=S0, S1=S1, a=ctx0.a, r=rz, mgrs0=entry_mgrs, mgrs=p.mgrs, uses=c.uses, muts=muts, ex=ex, path=p, own=True)
             for nm, g in c.post(pctx):
